@@ -7,6 +7,7 @@ mod mq;
 mod mqs;
 mod pl;
 mod ra;
+mod rv;
 mod sd;
 mod tp;
 mod rp;
@@ -95,6 +96,7 @@ fn main() {
             "tp" => tp::run_case(&f),
             "bs" => bs::run_case(&f),
             "sd" => sd::run_case(&f),
+            "rv" => rv::run_case(&f),
             other => format!("UNKNOWN-EXECUTOR {}", other),
         };
         case_no.store(0, std::sync::atomic::Ordering::SeqCst);
